@@ -37,7 +37,7 @@ def héSlice : KStr := KStr.ofSlice hé 0 3
 def héFull : KStr := KStr.ofString hé
 
 theorem héSlice_wf : héSlice.WF :=
-  ⟨by decide, by decide, by decide, by decide, by decide, by decide, by decide⟩
+  ⟨by decide, by decide, by decide, by decide, by decide, by decide, by decide, by decide⟩
 
 /-! ## Slicing -/
 
@@ -129,6 +129,12 @@ accepts a cut through a character and returns malformed UTF-8 -/
 theorem slice_full_witness :
     strBytes (index héFull 1) = some [0xC3] ∧ validUtf8 [0xC3] = false ∧
     errKind (index héSlice 1) = some "utf8" := by decide
+
+/-- with requests/C15-fix-1.diff applied (storage form `fullV`) the witness is refused, and `slice_valid`,
+`slice_err`, `slice_total`, `index_spec` above apply to run-time strings too (their hypothesis is
+`form ≠ .full`) -/
+theorem slice_full_fixed : errKind (index (KStr.ofStringV hé) 1) = some "utf8" ∧ (KStr.ofStringV hé).form ≠ .full := by
+  decide
 
 /-- what does hold for the `Full` form: `with_bounds` never fails and returns the raw bytes; the result is
 well-formed exactly when the cut happens to be on character boundaries (missing in the code: the check
@@ -333,6 +339,15 @@ to 2^24 only — the field is one character too narrow -/
 theorem center_f32_witness :
     (fillCounts .center false 16777217).1 + (fillCounts .center false 16777217).2 = 16777216 := by decide
 
+/-- with requests/C15-fix-2.diff applied (`exactCenter = true`) the halves always add up -/
+theorem center_exact_sum (a : Align) (b : Bool) (n : Nat) :
+    (fillCounts a b n true).1 + (fillCounts a b n true).2 = n := by
+  cases a with
+  | default => cases b <;> simp [fillCounts]
+  | left => simp [fillCounts]
+  | right => simp [fillCounts]
+  | center => simp only [fillCounts, if_true]; omega
+
 /-- **width_at_least**: a formatted field has at least the requested number of grapheme clusters —
 under the stated hypotheses: the cluster count is additive over the concatenated pieces (excluded:
 F-C15-4), the fill is at least one cluster, and a centred field misses fewer than 2^24 (excluded: F-C15-2) -/
@@ -406,12 +421,20 @@ def errName : Except String Bytes → Option String
 
 /-- **escape (simple arms)**: for every row of the table generated from `escape_string_character`, the
 escape produces exactly the tabulated character and consumes exactly one character -/
-theorem escape_simple (U : UFacts) (cs : List Bytes) :
-    ∀ r ∈ KotoVerif.Gen.simpleEscapeTable, escapeOne U ([r.1] :: cs) = .ok ([r.2], cs) := by
+theorem escape_simple (U : UFacts) (checked : Bool) (cs : List Bytes) :
+    ∀ r ∈ KotoVerif.Gen.simpleEscapeTable, escapeOne U checked ([r.1] :: cs) = .ok ([r.2], cs) := by
   intro r hr
   have h : KotoVerif.Gen.simpleEscape r.1 = some r.2 := by
     revert r; decide
   simp [escapeOne, ascii?, h]
+
+/-- the generated table is exactly the table of the language guide ("String Escape Codes"):
+`\\n` newline, `\\r` carriage return, `\\t` tab, `\\'`, `\\"`, `\\\\`, `\\{` — and nothing else -/
+theorem escape_table_documented :
+    KotoVerif.Gen.simpleEscape 110 = some 10 ∧ KotoVerif.Gen.simpleEscape 114 = some 13 ∧
+    KotoVerif.Gen.simpleEscape 116 = some 9 ∧ KotoVerif.Gen.simpleEscape 39 = some 39 ∧
+    KotoVerif.Gen.simpleEscape 34 = some 34 ∧ KotoVerif.Gen.simpleEscape 92 = some 92 ∧
+    KotoVerif.Gen.simpleEscape 123 = some 123 ∧ KotoVerif.Gen.simpleEscapeTable.length = 7 := by decide
 
 /-- the table is a function both ways: no two escapes produce the same character -/
 theorem escape_table_injective :
@@ -433,6 +456,11 @@ reports the overflow (a panic with overflow checks; without them the code wraps 
 theorem escape_u_overflow_witness :
     errName (unescape UFacts.trivial [92, 117, 123, 49, 48, 48, 48, 48, 48, 48, 52, 49, 125]) = some "PANIC:overflow" := by
   decide
+
+/-- with requests/C15-fix-3.diff applied (`checked = true`) the overflow is the out-of-range error -/
+theorem escape_u_overflow_fixed :
+    errName (unescape UFacts.trivial [92, 117, 123, 49, 48, 48, 48, 48, 48, 48, 52, 49, 125] true)
+      = some "UnicodeEscapeCodeOutOfRange" := by decide
 
 /-- the encoder produces well-formed UTF-8 at the boundaries of every encoded length and around the
 surrogate gap.
